@@ -279,6 +279,12 @@ func runServer(c reqCase) ([]string, error) {
 	if err := exchange(by, byCol, 0, byReq, byWant); err != nil {
 		return nil, fmt.Errorf("bystander connection before the request: %v", err)
 	}
+	// the bystander now leaves an incomplete frame pending while the other connection is served
+	half := len(byReq) / 2
+	_ = by.SetWriteDeadline(time.Now().Add(5 * time.Second))
+	if _, err := by.Write(byReq[:half]); err != nil {
+		return nil, fmt.Errorf("bystander connection: write failed: %v", err)
+	}
 	conn, err := l.Dial()
 	if err != nil {
 		return nil, fmt.Errorf("harness: %v", err)
@@ -311,9 +317,9 @@ func runServer(c reqCase) ([]string, error) {
 			return labels, fmt.Errorf("same connection, valid request following %x (reply %x): %v", []byte(c.Frame), out, err)
 		}
 	}
-	// the process survived; the bystander still works; a new connection is still accepted
-	if err := exchange(by, byCol, len(byWant), byReq, byWant); err != nil {
-		return labels, fmt.Errorf("bystander connection after request %x (handler %s): %v", []byte(c.Frame), c.Handler, err)
+	// the process survived; the bystander (which had half a request pending all the while) still works; a new connection is still accepted
+	if err := exchange(by, byCol, len(byWant), byReq[half:], byWant); err != nil {
+		return labels, fmt.Errorf("bystander connection (half a request pending while %x was handled on another connection, handler %s): %v", []byte(c.Frame), c.Handler, err)
 	}
 	nc, err := l.Dial()
 	if err != nil {
